@@ -184,13 +184,10 @@ def join_component_view(component, view):
     """
     if view is None:
         return component
-    result = [component]
-    try:
-        result.extend(view)
-    except TypeError:  # view is a scalar
-        result = [component, view]
-
-    return tuple(result)
+    # The view is kept as a single item (split_component_view returns it
+    # unchanged): unpacking it would turn an array view, e.g. a boolean mask,
+    # into a tuple of its rows, and an empty tuple into a length-1 key.
+    return (component, view)
 
 
 def facet_subsets(data_collection, cid, lo=None, hi=None, steps=5,
